@@ -2,6 +2,7 @@
 C10  Reliability indices obey their definitions and agree across levels/outputs.
 -/
 import Relsad.Model.BusAcct
+import Relsad.Model.EVPark
 import Mathlib.Tactic.Linarith
 import Mathlib.Tactic.FieldSimp
 import Mathlib.Tactic.Ring
@@ -232,5 +233,40 @@ theorem asui_mem_Icc (bs : List BusAcc) (hours : ℚ) (hpos : 0 < hours)
 /-- Non-vacuity: two buses, one with 3 customers out for 2 of 10 hours. -/
 example : ∃ u, asui? [{ nCust := 3, accOutage := 2 }, { nCust := 1 }] 10 = some u ∧ u = 3/20 := by
   refine ⟨_, rfl, by decide +kernel⟩
+
+/-! ### EV indices -/
+
+open Relsad.EV in
+theorem totalCars_append (xs ys : List ParkStat) : totalCars (xs ++ ys) = totalCars xs + totalCars ys := by
+  simp [totalCars]
+
+open Relsad.EV in
+/-- `EV_Interruption` times the number of cars is the sum over *all* parks of interruptions × cars. -/
+theorem evInterruption_weighted (ps : List ParkStat) (h : totalCars ps ≠ 0) :
+    evInterruption ps * totalCars ps = (ps.map (fun k => k.accExp * k.cars)).sum := by
+  unfold evInterruption; simp only [h, if_false]; field_simp
+
+open Relsad.EV in
+/-- **The system's EV interruption index is the car-weighted combination of the network values** (and so of the parks'
+own values: every park counts, whatever its position in the list). -/
+theorem evInterruption_append (xs ys : List ParkStat) (hx : totalCars xs ≠ 0) (hy : totalCars ys ≠ 0)
+    (hxy : totalCars xs + totalCars ys ≠ 0) :
+    evInterruption (xs ++ ys) = (totalCars xs * evInterruption xs + totalCars ys * evInterruption ys) / (totalCars xs + totalCars ys) := by
+  have h1 := evInterruption_weighted xs hx
+  have h2 := evInterruption_weighted ys hy
+  have h3 := evInterruption_weighted (xs ++ ys) (by rw [totalCars_append]; exact hxy)
+  rw [totalCars_append, List.map_append, List.sum_append] at h3
+  rw [eq_div_iff hxy, h3, ← h1, ← h2]; ring
+
+open Relsad.EV in
+/-- One park: the index is the park's own accumulated expected interruptions. -/
+theorem evInterruption_single (k : ParkStat) (h : k.cars ≠ 0) : evInterruption [k] = k.accExp := by
+  unfold evInterruption totalCars; simp [h]
+
+open Relsad.EV in
+/-- Non-vacuity: two parks of 2 and 7 cars with 1/2 and 0 accumulated interruptions: (1/2 · 2 + 0 · 7) / 9 = 1/9 - the first
+park counts although it is not the last one. -/
+example : evInterruption [⟨2, 1/2, 1, 3⟩, ⟨7, 0, 0, 0⟩] = 1/9 ∧ evDuration [⟨2, 1/2, 1, 3⟩, ⟨7, 0, 0, 0⟩] = 3 := by
+  constructor <;> decide +kernel
 
 end Relsad.C10
